@@ -1204,6 +1204,18 @@ impl Adv {
         }
     }
 
+    /// a unilateral close by the holder: the current holder commitment is signed for broadcast, which
+    /// marks the channel closed; the points and secrets asked for afterwards must be the same ones
+    fn force_close(&mut self) -> bool {
+        let next = self.next();
+        self.history.push(format!("force-close:sign_holder_commitment_tx_phase2:{}", next.saturating_sub(1)));
+        let (node, id) = (self.node.clone(), self.id.clone());
+        let r = catch_unwind(AssertUnwindSafe(|| {
+            node.with_channel(&id, |chan| chan.sign_holder_commitment_tx_phase2(next.saturating_sub(1))).is_ok()
+        }));
+        matches!(r, Ok(true))
+    }
+
     fn restart(&mut self) {
         self.history.push("restart".into());
         self.node = self.world.restart(&self.node_id);
@@ -1288,6 +1300,7 @@ fn adv(args: &Args) {
     let mut answers_total: BTreeMap<String, u64> = BTreeMap::new();
     let (mut n_refused, mut n_restart, mut max_next, mut n_replays) = (0u64, 0u64, 0u64, 0u64);
     let mut n_retries = 0u64;
+    let mut n_closed = 0u64;
     for case in 0..args.n {
         let seed = rng.bytes32();
         let style = if case % 2 == 0 { KeyDerivationStyle::Native } else { KeyDerivationStyle::Ldk };
@@ -1384,6 +1397,18 @@ fn adv(args: &Args) {
         n_restart += 1;
         a.probe(&mut rng);
         a.probe_future(&mut rng);
+        // two cases in three end with the holder closing the channel unilaterally: what a closed
+        // channel hands out (also ahead of the current number, also after a restart) is still the
+        // point / secret of the number asked
+        if case % 3 != 2 && a.next() >= 1 {
+            if a.force_close() {
+                n_closed += 1;
+            }
+            a.probe(&mut rng);
+            a.restart();
+            n_restart += 1;
+            a.probe(&mut rng);
+        }
         max_next = max_next.max(a.next());
         n_replays += a.history.iter().filter(|h| h.starts_with("replay-")).count() as u64;
         n_refused += a.refused;
@@ -1473,7 +1498,7 @@ fn adv(args: &Args) {
         "STATS",
         json!({"kind": "keys-adv", "cases": args.n, "answers_checked": answers_total, "refused_or_out_of_range": n_refused,
                "restarts": n_restart, "max_next_holder_commit_num": max_next, "replayed_requests": n_replays,
-               "accepted_validate_retries": n_retries}),
+               "accepted_validate_retries": n_retries, "force_closed_then_probed": n_closed}),
     );
 }
 
